@@ -4,5 +4,6 @@ CONSTANTS NC = 2
           Devs = {}
           MaxOps = 3
           MaxCrashes = 1
+          SyncEvery = 1
 INVARIANTS TypeOK IndexesAgree DirtyCovers NoDanglingIndex PinnedPreserved
 CHECK_DEADLOCK FALSE
